@@ -156,6 +156,38 @@ func (d *Driver) keyInputs(entry string, ca *testsupport.CA, withCert bool) ([]i
 		out = append(out, input{id: entry + "/unsupported/" + name, class: "unsupported-key", data: data})
 	}
 
+	// key stores that parse, but whose certificate is not usable for the purpose (open: accepted or
+	// rejected, a rejection must keep what was loaded before - including the published keys)
+	for _, v := range []struct {
+		id, key, certFor string
+		usage           x509.KeyUsage
+		from            time.Duration
+	}{
+		{"cert-no-digital-signature", "p384-a", "p384-a", x509.KeyUsageKeyEncipherment, -time.Minute},
+		{"cert-expired", "p384-a", "p384-a", x509.KeyUsageDigitalSignature, -3 * time.Hour},
+		{"cert-of-another-key", "p384-a", "p256-a", x509.KeyUsageDigitalSignature, -time.Minute},
+		{"cert-not-yet-valid", "rsa2048-a", "rsa2048-a", x509.KeyUsageDigitalSignature, 2 * time.Hour},
+	} {
+		pub, err := parseKey(d.fix[v.certFor])
+		if err != nil {
+			return nil, nil, err
+		}
+
+		cert, err := ca.IssueCertificate(
+			testsupport.WithSubject(pkix.Name{CommonName: "verif " + v.id}),
+			testsupport.WithValidity(time.Now().Add(v.from), time.Hour),
+			testsupport.WithSubjectPubKey(pub.Public(), x509.ECDSAWithSHA384),
+			testsupport.WithKeyUsage(v.usage),
+		)
+		if err != nil {
+			return nil, nil, err
+		}
+
+		data := append(bytes.Clone(d.fix[v.key]), certPEM(cert)...)
+		data = append(data, certPEM(ca.Certificate)...)
+		out = append(out, input{id: entry + "/cert/" + v.id, class: "cert-unusable", data: data})
+	}
+
 	garbage := base64ish(d.fix["p256-a"])
 
 	out = append(out,
